@@ -585,8 +585,10 @@ func c01R2(c *Ctx) {
 	c.Expect(R, 2)
 	c.Expect(RF, 5)
 	var ts []*ssa.Function
+	entryOf := map[*ssa.Function]*ssa.Function{}
 	for _, tr := range c01Traversals(c.P) {
 		ts = append(ts, tr.Body)
+		entryOf[tr.Body] = tr.Entry
 	}
 	if len(ts) == 0 {
 		c.LostAnchor(R, "traversal closure (calls Tracker.TryCommit and syncutil.Go) in package ~")
@@ -608,9 +610,39 @@ func c01R2(c *Ctx) {
 		v := S
 		steps := 0
 		var src *ssa.Call
+		owner := T // the function whose node parameter the lookup must be about
 		for v != nil && steps < 8 {
 			steps++
 			rs := Roots(v)
+			// the dispatching function may receive the (filtered) list from the claiming function
+			if len(rs) == 1 {
+				if prm, isParam := rs[0].(*ssa.Parameter); isParam && prm.Parent() == owner && entryOf[T] != nil && entryOf[T] != owner {
+					var sites []ssa.CallInstruction
+					for _, call := range Calls(entryOf[T], func(string) bool { return true }) {
+						callee := StaticCallee(call)
+						if callee == nil && !call.Common().IsInvoke() {
+							callee, _ = c01FuncOfValue(call.Common().Value)
+						}
+						if callee == owner {
+							sites = append(sites, call)
+						}
+					}
+					idx := -1
+					for i, q := range owner.Params {
+						if q == prm {
+							idx = i
+						}
+					}
+					if len(sites) == 1 && idx >= 0 {
+						off := len(owner.Params) - len(sites[0].Common().Args) // bound method value: receiver is not an argument
+						if idx-off >= 0 && idx-off < len(sites[0].Common().Args) {
+							v = sites[0].Common().Args[idx-off]
+							owner = entryOf[T]
+							continue
+						}
+					}
+				}
+			}
 			if len(rs) != 1 {
 				c.Undecided(R, tn+"|successors-origin", gos[0].Pos(), "the dispatched successors slice has several reaching definitions")
 				v = nil
@@ -646,7 +678,7 @@ func c01R2(c *Ctx) {
 		if ok {
 			last := src.Call.Args[len(src.Call.Args)-1]
 			prm := c01ParamOf(last)
-			ok = prm != nil && prm.Parent() == T && c01IsOCIDescriptor(prm.Type())
+			ok = prm != nil && prm.Parent() == owner && c01IsOCIDescriptor(prm.Type())
 		}
 		c.Check(R, tn+"|successors-origin", gos[0].Pos(), ok,
 			ifelse(ok, "the dispatched slice is opts.FindSuccessors(ctx, proxy, desc) for the node being copied, passed through recognised filters only",
@@ -1094,11 +1126,18 @@ func c01RefDefault(fn *ssa.Function, v ssa.Value, srcRef, dstRef *ssa.Parameter)
 // c01RefParamOf: in callee g, the index of the string parameter that reaches
 // PushReference's reference argument (or -1).
 func c01RefParamOf(g *ssa.Function) int {
-	for _, call := range Calls(g, func(n string) bool { return n == nPushRef || c01TagInvokes[n] }) {
-		args := call.Common().Args
-		for i, p := range g.Params {
-			for _, r := range Roots(args[len(args)-1]) {
-				if r == ssa.Value(p) {
+	fns := append([]*ssa.Function{g}, Anons(g)...) // the effect may sit in a closure g hands to a transfer helper
+	for _, f := range fns {
+		for _, call := range Calls(f, func(n string) bool { return n == nPushRef || c01TagInvokes[n] }) {
+			args := call.Common().Args
+			last := args[len(args)-1]
+			for i, p := range g.Params {
+				for _, r := range Roots(last) {
+					if r == ssa.Value(p) {
+						return i
+					}
+				}
+				if f != g && c01P != nil && c01CarriedFrom(c01P, last, p) {
 					return i
 				}
 			}
@@ -1243,14 +1282,10 @@ func c01R4(c *Ctx) {
 		}
 	}
 	mapped := false
-	if prepRoot != nil {
-		for _, r := range Roots(prepRoot) {
-			if ex, ok := r.(*ssa.Extract); ok && ex.Index == 0 {
-				if call, ok := ex.Tuple.(*ssa.Call); ok && CalleeName(call) == "field:~.CopyOptions.MapRoot" {
-					mapped = true
-				}
-			}
-		}
+	if mrVar := c01FieldOf(c.P, "", "CopyOptions", "MapRoot"); prepRoot != nil && mrVar != nil {
+		// the root handed on is (on the MapRoot path) the result of calling the MapRoot option — directly, or through a
+		// helper that receives the option value
+		mapped = c01Slice(prepRoot, func(x ssa.Value) bool { return c01IsFieldValue(x, mrVar) })
 	}
 	c.Check(R, "~.Copy|one-root-prepared-copied-returned", Copy.Pos(), okD && nSucc > 0 && mapped,
 		ifelse(okD && mapped, "the descriptor returned on success is the value handed to the hook installer and to the graph copy, and it is MapRoot's result when MapRoot is set",
@@ -1407,11 +1442,63 @@ func c01R4(c *Ctx) {
 				pa, pb := c01ParamOf(a) != nil, c01ParamOf(b) != nil
 				return (pa && capturedFrom(b, rootParam)) || (pb && capturedFrom(a, rootParam))
 			})
+			isRefV := func(v ssa.Value) bool { return capturedFrom(v, refParam) }
 			if len(eqT) == 0 {
-				c.Undecided(R, key, W.Pos(), "no content.Equal(desc, root) test recognised in the "+inst.role+" wrapper: cannot tell the root path from the others")
+				// the root test may sit in a helper the wrapper always calls with its own node:
+				// tagIfRoot(ctx, desc) { if !Equal(desc, root) { return nil }; tag }
+				var condTags []ssa.Instruction
+				for _, call := range Calls(W, func(string) bool { return true }) {
+					if _, isDefer := call.(*ssa.Defer); isDefer || call.Common().IsInvoke() {
+						continue
+					}
+					h := StaticCallee(call)
+					if h == nil {
+						h, _ = c01FuncOfValue(call.Common().Value)
+					}
+					if h == nil || !inModule(h) || len(h.Blocks) == 0 {
+						continue
+					}
+					own := false
+					for _, a := range call.Common().Args {
+						if c01IsOCIDescriptor(a.Type()) && c01ParamOf(a) != nil {
+							own = true
+						}
+					}
+					if !own {
+						continue
+					}
+					hEq, _, _ := CallTests(h, "~/content.Equal", func(ec *ssa.Call) bool {
+						a, b := ec.Call.Args[0], ec.Call.Args[1]
+						pa, pb := c01ParamOf(a) != nil, c01ParamOf(b) != nil
+						return (pa && capturedFrom(b, rootParam)) || (pb && capturedFrom(a, rootParam))
+					})
+					hTags := c01TagEffects(h, isRefV)
+					good := len(hEq) > 0 && len(hTags) > 0
+					for _, e := range hEq {
+						if c01SuccessReturnFrom(h, e, newCut().Instr(hTags...), nil) != nil {
+							good = false
+						}
+					}
+					if good {
+						condTags = append(condTags, call.(ssa.Instruction))
+					}
+				}
+				if len(condTags) == 0 {
+					c.Undecided(R, key, W.Pos(), "no content.Equal(desc, root) test recognised in the "+inst.role+" wrapper (nor in a helper it hands its node to): cannot tell the root path from the others")
+					continue
+				}
+				okAll := true
+				for _, r := range Returns(W) {
+					if !c01IsErrorReturn(r, ErrResultIndex(W.Signature)) && !MustPass(r, newCut().Instr(condTags...)) {
+						okAll = false
+					}
+				}
+				c.Check(R, key, W.Pos(), okAll,
+					ifelse(okAll, "every successful return of the wrapper follows the call of a helper that tags the node when it is the root", "the "+inst.role+" wrapper can report success without calling the helper that tags the root"))
+				c.OK(R, pn+"$"+inst.role+"|tags-the-root-descriptor", W.Pos(), "the helper receives the wrapper's own node")
 				continue
 			}
-			tags := c01TagEffects(W, func(v ssa.Value) bool { return capturedFrom(v, refParam) })
+			tags := c01TagEffects(W, isRefV)
 			var bad *ssa.Return
 			for _, e := range eqT {
 				if r := c01SuccessReturnFrom(W, e, newCut().Instr(tags...), map[string]bool{"~.SkipNode": true}); r != nil {
@@ -1445,13 +1532,35 @@ func c01R4(c *Ctx) {
 	for _, tr := range c01Traversals(c.P) {
 		T := tr.Body
 		tn := c01ClosureKey(T, "traverse")
+		if tr.Entry != tr.Body {
+			// the existence test sits in whichever of the two traversal functions asks dst.Exists about its own node
+			for _, call := range Calls(tr.Entry, func(n string) bool { return n == "(~/content.ReadOnlyStorage).Exists" }) {
+				if prm := c01ParamOf(call.Common().Args[len(call.Common().Args)-1]); prm != nil && prm.Parent() == tr.Entry {
+					T = tr.Entry
+				}
+			}
+		}
 		var existsTrue, existsFalse []Edge
 		for _, call := range Calls(T, func(n string) bool { return n == "(~/content.ReadOnlyStorage).Exists" }) {
 			prm := c01ParamOf(call.Common().Args[len(call.Common().Args)-1])
 			if prm == nil || prm.Parent() != T {
 				continue
 			}
-			if len(CallsTo(T, nGo)) > 0 && !Dominates(call.(ssa.Instruction), CallsTo(T, nGo)[0].(ssa.Instruction)) {
+			// the cache-existence check comes after the dispatch (the syncutil.Go call, or the call of the function holding it)
+			var dispatch []ssa.CallInstruction
+			dispatch = append(dispatch, CallsTo(T, nGo)...)
+			if T != tr.Body {
+				for _, dc := range Calls(T, func(string) bool { return true }) {
+					callee := StaticCallee(dc)
+					if callee == nil && !dc.Common().IsInvoke() {
+						callee, _ = c01FuncOfValue(dc.Common().Value)
+					}
+					if callee == tr.Body {
+						dispatch = append(dispatch, dc)
+					}
+				}
+			}
+			if len(dispatch) > 0 && !Dominates(call.(ssa.Instruction), dispatch[0].(ssa.Instruction)) {
 				continue // the cache-existence check after the wait
 			}
 			if v := ResultOf(call, 0); v != nil {
